@@ -1984,12 +1984,22 @@ def proximal_huber(space, gamma):
             else:
                 norm = x.ufuncs.absolute()
 
-            mask = norm.ufuncs.less_equal(gamma + self.sigma)
-            out[mask] = gamma / (gamma + self.sigma) * x[mask]
+            # Pointwise factor: gamma / (gamma + sigma) where the (pointwise)
+            # norm is at most gamma + sigma, and 1 - sigma / norm elsewhere.
+            # The latter is ``x - sigma * x / |x|``, i.e., for vector fields
+            # the shrinkage acts along the direction of the vector.
+            norm_arr = norm.asarray()
+            with np.errstate(divide='ignore', invalid='ignore'):
+                factor = np.where(norm_arr <= gamma + self.sigma,
+                                  gamma / (gamma + self.sigma),
+                                  1 - self.sigma / norm_arr)
+            factor = norm.space.element(factor)
 
-            mask.ufuncs.logical_not(out=mask)
-            sign_x = x.ufuncs.sign()
-            out[mask] = x[mask] - self.sigma * sign_x[mask]
+            if isinstance(self.domain, ProductSpace):
+                for x_i, out_i in zip(x, out):
+                    x_i.multiply(factor, out=out_i)
+            else:
+                x.multiply(factor, out=out)
 
             return out
 
